@@ -225,11 +225,7 @@ fn run_task(t: Task, w: &mut Worker) {
             let seed = vec![0x22u8; alg.n()];
             for pos in 0..8usize {
                 for val in 0..=255u8 {
-                    // under the interpreter (60 ms per failing call): every 9th value plus the
-                    // neighbours of the valid nibble codes and the end marker
-                    if crate::common::miri_mode() && !(val % 9 == 0 || [0x0f, 0x10, 0x11, 0x14, 0x15, 0x50, 0x51, 0x54, 0x55, 0x94, 0x95, 0xa1, 0xfe, 0xff].contains(&val)) {
-                        continue;
-                    }
+
                     let mut b = hss::make_blob(0, &lv, &seed);
                     b[8 + pos] = val;
                     probe_key(w, alg, &b, &format!("parameter-byte:{}levels", lv.len()), &format!("pos={pos}:val={val:#04x}"), None);
@@ -310,16 +306,24 @@ fn run_task(t: Task, w: &mut Worker) {
 fn run_miri(ctx: &Ctx) -> Report {
     enum M {
         T(Task),
+        /// one key with one parameter byte replaced (a well-formed length, so parsing gets as far
+        /// as the parameter decoding: about a second per call in the interpreter)
+        ParamByte(Alg, Vec<Level>, usize, u8),
         EndToEnd(Alg),
     }
     let mut items: Vec<M> = Vec::new();
     for alg in [Alg::Sha256_128, Alg::Shake256_192] {
         items.push(M::T(Task::ParamLists(alg)));
         items.push(M::T(Task::KeyLengths(alg)));
-        items.push(M::T(Task::ParamBytes(alg, levels(&[(2, 1)]))));
-        items.push(M::T(Task::ParamBytes(alg, (0..8).map(|_| Level { h: crate::common::h2(), w: 8 }).collect())));
         items.push(M::T(Task::Counters(alg, levels(&[(2, 1)]))));
         items.push(M::T(Task::Counters(alg, levels(&[(2, 4), (2, 8), (2, 2)]))));
+        for lv in [levels(&[(2, 1)]), (0..8).map(|_| Level { h: crate::common::h2(), w: 8 }).collect::<Vec<Level>>()] {
+            for pos in [0usize, 1, 7] {
+                for val in if ctx.quick() { vec![0x00u8, 0x10, 0x15, 0x5f, 0xa1, 0xfe] } else { vec![0x00u8, 0x01, 0x0f, 0x10, 0x15, 0x1f, 0x50, 0x55, 0x5f, 0x95, 0xa1, 0xf1, 0xfe] } {
+                    items.push(M::ParamByte(alg, lv.clone(), pos, val));
+                }
+            }
+        }
     }
     // a complete keygen + sign costs the interpreter about a quarter of an hour: thorough only
     if !ctx.quick() {
@@ -333,6 +337,11 @@ fn run_miri(ctx: &Ctx) -> Report {
         }
         match it {
             M::T(t) => run_task(t, &mut w),
+            M::ParamByte(alg, lv, pos, val) => {
+                let mut b = hss::make_blob(0, &lv, &vec![0x22u8; alg.n()]);
+                b[8 + pos] = val;
+                probe_key(&mut w, alg, &b, &format!("parameter-byte:{}levels", lv.len()), &format!("pos={pos}:val={val:#04x}"), None);
+            }
             M::EndToEnd(alg) => {
                 let lv = levels(&[(2, 1)]);
                 let seed = vec![0x44u8; alg.n()];
@@ -350,7 +359,7 @@ fn run_miri(ctx: &Ctx) -> Report {
         }
     }
     let mut rep = w.report;
-    rep.rule = "Miri stage: the share of the malformed-input grid that fails before any tree is built (parameter-list lengths 0..10, key lengths 0..64, all 256 values of every parameter byte, counters at/beyond the lifetime, wiped key) for a SHA-256 and a SHAKE variant, plus one complete keygen + sign of a 4-leaf W1 key without aux, with valid aux and with truncated aux, under the interpreter (debug profile); same oracles as the native stage".into();
+    rep.rule = "Miri stage: the share of the malformed-input grid that fails before any tree is built (parameter-list lengths 0..10, key lengths 0..64, a spread of invalid values in the first, second and last parameter byte of 1- and 8-level keys, counters at/beyond the lifetime, wiped key) for a SHA-256 and a SHAKE variant, plus one complete keygen + sign of a 4-leaf W1 key without aux, with valid aux and with truncated aux, under the interpreter (debug profile); same oracles as the native stage".into();
     if rep.evaluations == 0 && ctx.shard == 0 {
         rep.inconclusive("the interpreter evaluated nothing");
     }
